@@ -23,7 +23,7 @@ var clPerturbs = []string{"cl-dup-same", "cl-dup-diff", "cl-plus", "cl-lead-sp",
 var tePerturbs = []string{"te-case", "te-upper", "te-identity", "te-gzip-chunked", "te-chunked-gzip", "te-chunked-identity", "te-dup", "te-on-10", "te-tab", "te-xchunked", "te-trail-sp", "te-param", "te-fold", "te-chunked-chunked"}
 var bothPerturbs = []string{"clte-cl-first", "clte-te-first", "clte-identity", "clte-cl-zero"}
 var headPerturbs = []string{"ws-colon-cl", "ws-colon-te", "ws-colon-other", "fold-cl", "fold-other", "bare-lf-all", "bare-lf-one", "bare-lf-blank", "bare-cr", "nul-value", "no-host", "dup-host", "abs-target", "star-target", "name-lower", "name-upper", "leading-crlf", "double-space", "http10-keepalive", "http10-plain", "tab-sep", "no-colon-line", "long-header"}
-var chunkPerturbs = []string{"ch-ext", "ch-ext-quoted", "ch-lead-zeros", "ch-upper-hex", "ch-ws-after-size", "ch-lf-size", "ch-lf-in-ext", "ch-17-hex", "ch-missing-crlf", "ch-lf-after-data", "ch-trailer", "ch-trailer-bad", "ch-size-plus", "ch-size-0x", "ch-empty-size", "ch-multi"}
+var chunkPerturbs = []string{"ch-ext", "ch-ext-quoted", "ch-lead-zeros", "ch-upper-hex", "ch-ws-after-size", "ch-lf-size", "ch-lf-in-ext", "ch-17-hex", "ch-missing-crlf", "ch-lf-after-data", "ch-trailer", "ch-trailer-bad", "ch-size-plus", "ch-size-0x", "ch-empty-size", "ch-multi", "ch-huge-neg2", "ch-huge-neg1", "ch-huge-min", "ch-16-hex"}
 
 func allPerturbs() []string {
 	var a []string
@@ -324,8 +324,21 @@ func render(r *rand.Rand, m *amsg) []byte {
 		payload = one(fmt.Sprintf("0x%x\r\n", n), m.Body, "\r\n")
 	case "ch-empty-size":
 		payload = one("\r\n", m.Body, "\r\n")
+	// ---- 16-digit chunk sizes (beyond int63): a first, valid chunk whose data ends in CR LF / CR,
+	// then a size line that would wrap to -2 / -1 / MinInt64 in a signed 64-bit accumulator.
+	case "ch-huge-neg2":
+		d := append(append([]byte{}, m.Body...), '\r', '\n')
+		payload = []byte(fmt.Sprintf("%x\r\n%s\r\nfffffffffffffffe\r\n0\r\n\r\n", len(d), d))
+	case "ch-huge-neg1":
+		d := append(append([]byte{}, m.Body...), '\r')
+		payload = []byte(fmt.Sprintf("%x\r\n%s\r\nffffffffffffffff\r\n\n0\r\n\r\n", len(d), d))
+	case "ch-huge-min":
+		d := append(append([]byte{}, m.Body...), '\r', '\n')
+		payload = []byte(fmt.Sprintf("%x\r\n%s\r\n8000000000000000\r\n0\r\n\r\n", len(d), d))
+	case "ch-16-hex":
+		payload = one(fmt.Sprintf("0%015x\r\n", n), m.Body, "\r\n")
 	}
-	if strings.HasPrefix(p, "ch-") && n == 0 && p != "ch-trailer" && p != "ch-trailer-bad" {
+	if strings.HasPrefix(p, "ch-") && !strings.HasPrefix(p, "ch-huge-") && n == 0 && p != "ch-trailer" && p != "ch-trailer-bad" {
 		// an empty body has no data chunk to perturb: plain terminator
 		payload = []byte("0\r\n\r\n")
 	}
